@@ -269,7 +269,8 @@ def method_table(x):
             else:
                 out.append((n, "call", ()))
     # further read-only protocols of the same object (not public names, but how other code reads a sequence)
-    for r in ("@array", "@bytes", "@list", "@contains", "@eq-rebuilt", "@hash-stable", "@json-roundtrip", "@copy-sliced"):
+    for r in ("@array", "@bytes", "@list", "@contains", "@eq-rebuilt", "@hash-stable", "@json-roundtrip", "@copy-sliced",
+              "@gapped-by-map", "@map-segments", "@map-motifs", "@getitem-featuremap"):
         out.append((r, "reading", ()))
     return out
 
@@ -317,6 +318,22 @@ def _invoke(obj, n, kind, args, other):
             return obj == type(obj)(str(obj), name=obj.name) if not hasattr(obj, "_seq") else str(obj) == str(obj[:])
         if n == "@hash-stable":
             return hash(obj) == hash(obj)
+        if n in ("@gapped-by-map", "@map-segments", "@map-motifs", "@getitem-featuremap"):
+            # the methods that read the object through a map of its own positions (how alignments and features read it)
+            from cogent3.core.location import FeatureMap, IndelMap
+            L = len(obj)
+            if L < 3:
+                raise ValueError("too short for a two-segment map")
+            if n == "@getitem-featuremap":
+                fm = FeatureMap.from_locations(locations=[(0, 1), (2, L)], parent_length=L)
+                return str(obj[fm])
+            import numpy as _np
+            im = IndelMap(gap_pos=_np.array([1, L - 1]), cum_gap_lengths=_np.array([2, 3]), parent_length=L)
+            if n == "@gapped-by-map":
+                return str(obj.gapped_by_map(im))
+            if n == "@map-segments":
+                return [str(x) for x in obj.gapped_by_map_segment_iter(im)]
+            return [str(x) for x in obj.gapped_by_map_motif_iter(im)]
         if n == "@json-roundtrip":       # what the serialised form of this object reads as
             from cogent3.util.deserialise import deserialise_object
             return str(deserialise_object(obj.to_json()))
